@@ -56,6 +56,14 @@ def publish (n : Node) (es : List Entry) : Node := es.foldl publish1 n
 def ready (n : Node) (es : List Entry) : Node :=
   publish { n with log := n.log ++ es } (entriesToApply n es)
 
+/-- a snapshot handed over by raft (index `idx`, chain height `height`): `Store` compacts the log, then
+`recoverFromSnapshot` is offered the blocks `ledger+1 … height` by the syncer (`ledger` = what the executor has
+persisted) and mints exactly those that continue `lastExec` -/
+def installSnap (n : Node) (idx height ledger : Nat) : Node :=
+  let n1 := (List.range' (ledger + 1) (height - ledger)).foldl (fun (m : Node) h =>
+    if h = m.lastExec + 1 then { m with queue := m.queue ++ [h], lastExec := h } else m) n
+  { n1 with applied := idx, snapIdx := idx, log := n1.log.filter (fun e => e.idx > idx) }
+
 /-- `maybeTriggerSnapshot` (compaction keeps `snapCount` entries before the snapshot in memory; what
 a restart re-delivers is governed by the snapshot on disk) -/
 def snapshot (n : Node) : Node :=
